@@ -174,6 +174,12 @@ def inputs(ctx):
             inp["langs"] = langs
             inp["syncs"] = syncs
             inp["lang"] = rng.randrange(nl)
+        # document-shape variants every grammar allows: CRLF line ends; WebVTT cue identifiers,
+        # a NOTE block and header metadata
+        if fmt in ("SRT", "WebVTT", "MicroDVD") and rng.random() < 0.3:
+            inp["crlf"] = True
+        if fmt == "WebVTT" and rng.random() < 0.4:
+            inp["vtt_extras"] = True
         ins.append(inp)
     return ins
 
@@ -219,12 +225,22 @@ def execute(inp):
         if fmt == "SRT":
             doc = render.srt_doc([(render.stamp(c["b"], ","), render.stamp(c["e"], ","), text(k, c))
                                   for k, c in enumerate(cues)])
+            if inp.get("crlf"):
+                doc = doc.replace("\n", "\r\n")
             kw = {"lang": lang} if lang else {}
             cs = pycaption.SRTReader().read(doc, **kw)
             lg = lang or "en-US"
         elif fmt == "WebVTT":
             doc = render.webvtt_doc([(render.stamp(c["b"]), render.stamp(c["e"]), text(k, c))
                                      for k, c in enumerate(cues)])
+            if inp.get("vtt_extras"):
+                blocks = doc.split("\n\n")
+                out = [blocks[0] + " - title\nKind: captions\nLanguage: en", "NOTE a comment\nover two lines"]
+                for k, b in enumerate(blocks[1:]):
+                    out.append(("cue-%d\n" % k if k % 2 == 0 else "") + b)
+                doc = "\n\n".join(out)
+            if inp.get("crlf"):
+                doc = doc.replace("\n", "\r\n")
             kw = {"lang": lang} if lang else {}
             rd = pycaption.WebVTTReader(ignore_timing_errors=not inp.get("strict", False),
                                         time_shift_milliseconds=inp.get("shift", 0))
@@ -241,6 +257,8 @@ def execute(inp):
         else:
             doc = render.microdvd_doc([(render.stamp(c["b"]), render.stamp(c["e"]), text(k, c))
                                        for k, c in enumerate(cues)], inp.get("fps_text"))
+            if inp.get("crlf"):
+                doc = doc.replace("\n", "\r\n")
             cs = pycaption.MicroDVDReader().read(doc)
             lg = cs.get_languages()[0]
         rec["obs"] = {"ok": True, "caps": _project(cs, lg)}
@@ -284,6 +302,11 @@ def signature(inp, rec, clause):
             sig["feature"] = ",".join(sorted(f)) or "plain"
     elif inp["fmt"] == "MicroDVD":
         sig["feature"] = "frame"
+    elif inp["fmt"] == "WebVTT":
+        # with vtt_extras every even cue carries an identifier line
+        cues = inp["cues"]
+        sig["identifier_after_empty_cue"] = bool(inp.get("vtt_extras")) and any(
+            k % 2 == 0 and not cues[k - 1]["txt"] for k in range(1, len(cues)))
     return sig
 
 
